@@ -187,7 +187,12 @@ def oracle_encode(case, obs, consts):
     m, cfg = case["msg"], case["cfg"]
     anns = {k: bytes(v) for k, v, t in m["anns"]}
     payload = bytes(m["payload"])
-    declared = (len(obs["z"]) if obs["z"] is not None else len(payload)) + sum(8 + len(v) for v in anns.values())
+    asz = sum(8 + len(v) for v in anns.values())
+    # the sizes the sender could declare: the payload as it is, or compressed (when it ran zlib at all)
+    candidates = [len(payload) + asz] + ([len(obs["z"]) + asz] if obs["z"] is not None else [])
+    declared = max(candidates)
+    if obs["kind"] == "ok" and len(obs["data"]) >= 20:
+        declared = int.from_bytes(obs["data"][12:16], "big") + int.from_bytes(obs["data"][16:20], "big")   # what it did declare
     if obs["kind"] == "ok":
         if declared > cfg["max_size"]:
             bad.append(("sender-oversize-accepted", "sender built a message of declared size %d > MAX_MESSAGE_SIZE %d" % (declared, cfg["max_size"])))
